@@ -7,7 +7,9 @@ open Goflow Goflow.Gen Goflow.Gen.Netflow Goflow.Spec.Netflow
 def opFor (sid : Nat) (m : Msg) : List String :=
   ["call nf " ++ toString sid ++ " " ++ hexOf (encode m),
    "expect res ok",
-   "expect nf " ++ (expected m).toD.render]
+   "expect nf " ++ (expected m).toD.render,
+   -- … and the raw producer's JSON of the packet says exactly what the packet holds
+   "expect rawjson ok"]
 
 def genCase (sid : Nat) : G (List String) := do
   let version ← pick [9, 10]
